@@ -13,6 +13,7 @@ CONSTANTS
  DevF13 = FALSE
  DevVerKey = TRUE
  DevDangEnd = FALSE
+ DevRepBeforePattern = FALSE
  DevLastOfName = FALSE
  DevNoAtomResname = FALSE
  DevOrderedPairs = FALSE
